@@ -4,6 +4,7 @@ From Coq Require Import Strings.String Strings.Byte.
 From Coq Require Import List Arith NArith ZArith Bool.
 From PV Require Import Base.Bytes Base.Outcome Base.KV Did.Model Did.Props.
 From PV Require Import Chain.Model Chain.Run Chain.DidProps Chain.ExampleDid.
+From PV Require Chain.DidGenesisInv.
 Import ListNotations.
 
 (** whatever the read operation returns for [did], after any history from a registry satisfying the
@@ -37,3 +38,25 @@ Example C11_nonvacuous :
 Proof.
   intros doc seq H. vm_compute in H. inversion H; subst. split; reflexivity.
 Qed.
+
+(** the start of a chain: InitGenesis of a DID genesis that GenesisState.Validate (as repaired, F14) accepts establishes
+    the registry invariant the history theorems start from *)
+Theorem C11_validated_genesis_establishes_invariant : forall g,
+  validate_did_genesis g = true -> Inv_did (init_did g []).
+Proof. exact Chain.DidGenesisInv.did_genesis_establishes_inv. Qed.
+Print Assumptions C11_validated_genesis_establishes_invariant.
+
+Theorem C11_validated_genesis_then_any_history : forall o bs c g did doc seq,
+  validate_did_genesis g = true -> c_did c = init_did g [] ->
+  q_did (c_did (run o c bs)) did = DFound doc seq -> doc_id doc = did.
+Proof. exact Chain.DidGenesisInv.did_genesis_then_history_resolves. Qed.
+Print Assumptions C11_validated_genesis_then_any_history.
+
+(** the original validation accepted a genesis that files a document under another identifier (F14) *)
+Theorem C11_genesis_lenient_refuted :
+  validate_did_genesis_gen false Chain.DidGenesisInv.foreign_genesis = true /\
+  validate_did_genesis Chain.DidGenesisInv.foreign_genesis = false /\
+  exists doc seq, q_did (init_did Chain.DidGenesisInv.foreign_genesis []) Chain.DidGenesisInv.D2 = DFound doc seq /\
+                  doc_id doc <> Chain.DidGenesisInv.D2.
+Proof. exact Chain.DidGenesisInv.did_genesis_lenient_refuted. Qed.
+Print Assumptions C11_genesis_lenient_refuted.
